@@ -199,6 +199,14 @@ pub fn run(ctx: &Ctx) -> i32 {
                 ctx.violation("props.wincons.g_glshwi:pair", &format!("{}: props g_glshwi={} expected {:.3}", name, wp.g_glshwi, gshwi), case());
             }
         }
+        // K: each window enters with its own U, or with 5.7 when it has none (both windows measure 2 x 1.5)
+        let (ua, ub) = (expect(&ta).0.unwrap_or(5.7), expect(&tb).0.unwrap_or(5.7));
+        let um_ref = (ua + ub) / 2.0;
+        match ind.K_data.windows.u_mean {
+            Some(um) if (um as f64 - um_ref).abs() <= 0.00501 + 1e-4 * um_ref => {}
+            other => ctx.violation("K.windows.u_mean:pair", &format!("K windows u_mean={:?} expected {:.3} (windows with U {:.3} and {:.3}; 5.7 where none)", other, um_ref, ua, ub), case()),
+        }
+        // q_sol;jul: each window with the solar factors of its own construction (or 0.77 / 0.20 without one)
         if ta[3] < 2 && ta[4] == 0 && tb[3] < 2 && tb[4] == 0 {
             acc.nontriv += 1;
         }
@@ -212,7 +220,7 @@ pub fn run(ctx: &Ctx) -> i32 {
     ctx.nontriv(nt);
     ctx.finish(
         "model_checking",
-        "full Cartesian product f_f{0,.1,.25,.5,1} x dU{0,10,50} x Uglass{.6,1,3.3,5.7} x Uframe{.8,2.2,5.7,7} x g_n{.2,.5,.85} x g_glshwi{None,.05,.337} x glass ref{ok,nil,dangling} x frame ref{ok,nil,dangling}, each construction observed directly (WinCons::u_value/g_glwi/g_glshwi) and inside a one-window box model through props.wincons, K_data.windows and q_soljul_data; tuples are distinct by construction; all ordered pairs of a 96-construction alphabet (f_f{0,.25} x dU{0,10} x g_glshwi(3) x glazing{gl,gl2,nil,dangling} x frame{fr,nil}) as two constructions of one model with one window each, every props.wincons entry against the formula for that construction alone; non-trivial = glazing and frame both resolve (formula path)",
+        "full Cartesian product f_f{0,.1,.25,.5,1} x dU{0,10,50} x Uglass{.6,1,3.3,5.7} x Uframe{.8,2.2,5.7,7} x g_n{.2,.5,.85} x g_glshwi{None,.05,.337} x glass ref{ok,nil,dangling} x frame ref{ok,nil,dangling}, each construction observed directly (WinCons::u_value/g_glwi/g_glshwi) and inside a one-window box model through props.wincons, K_data.windows and q_soljul_data; tuples are distinct by construction; all ordered pairs of a 96-construction alphabet (f_f{0,.25} x dU{0,10} x g_glshwi(3) x glazing{gl,gl2,nil,dangling} x frame{fr,nil}) as two constructions of one model with one window each, every props.wincons entry against the formula for that construction alone and the mean window U in K against the two values (5.7 where a construction has none); non-trivial = glazing and frame both resolve (formula path)",
         true,
         json!({"space_size": n, "pairs": np}),
     )
